@@ -37,6 +37,11 @@ def connection_loss(run, k):
     """What ErrorRecoveryDecorator does to the Connection Status system tag when the hardware is lost / comes back."""
     from openpectus.lang.exec.tags import SystemTagName
     tag = run.engine._system_tags[SystemTagName.CONNECTION_STATUS]
+    if k == 0:
+        # a uod tag that follows the connection status through its event hook (tags are event listeners): its value changes
+        # inside on_connection_status_change, i.e. while the engine is collecting the changed tags
+        free = run.uod.tags["Free"]
+        free.on_connection_status_change = lambda status: free.set_value(1.0 if status == "Connected" else -1.0, run.now)
     if k == 6:
         tag.set_value("Disconnected", run.now)
     elif k == 14:
